@@ -253,4 +253,10 @@ def whileFuel {σ : Type} (cond : σ → Bool) (step : σ → M σ) : Nat → σ
   | 0, x => if cond x then raise (.assert "Drain::drop: fuel exhausted") else pure ()
   | fuel + 1, x => if cond x then do let x' ← step x; whileFuel cond step fuel x' else pure ()
 
+/-- a `while cond { body }` loop on the state itself, on a fuel argument (the translated `fill_spare_with`
+uses it); running out of fuel is reported as a failed assertion, never silently -/
+def whileM (msg : String) (cond : M Bool) (body : M Unit) : Nat → M Unit
+  | 0 => do if (← cond) then raise (.assert msg) else pure ()
+  | fuel + 1 => do if (← cond) then do body; whileM msg cond body fuel else pure ()
+
 end CircBuf
